@@ -1,5 +1,7 @@
 package c01
 
+import "verif/lib/jsseeds"
+
 // Grammars (syntax of core.Grammar: tokens separated by single spaces are concatenated; "_" is a space).
 // GW: wide  — every operator and leaf kind, small trees.
 // GD: deep  — representative operators of each compiler code path, few leaves, larger trees.
@@ -56,60 +58,5 @@ func grammarSpecs() []gspec {
 	}
 }
 
-// seed catalogue for token edits: every construct at least once
-var seeds = []string{
-	`var q = 1, r; let w = 2; const c = 3; q = w + c;`,
-	`function h(a, b = 1, ...rest) { return a + b + rest.length } h(1)`,
-	`var g2 = function* (v) { var r = yield v; yield* [1, 2]; return r }; [...g2(1)]`,
-	`async function k2(v) { try { await v } catch (e) { return e } finally { x++ } } k2(1)`,
-	`var ar = (a, b) => a + b; var ar2 = a => { return a }; ar(1, ar2(2))`,
-	`class A { #p = 1; static #s = 2; static s = 3; f = this.#p; constructor(v) { this.v = v } get g() { return this.#p } set g(v) { this.#p = v } static m() { return A.#s } #pm() { return 1 } static has(o) { return #p in o } }`,
-	`class B extends K { constructor() { super(); this.q = super.m() } m() { return super.m() + 1 } static s2 = super.s } new B().m()`,
-	`var { p, f: ff = 1, ...rest } = o; var [a0, , a2 = 5, ...ar3] = a; [x, y] = [y, x]; ({ p: x } = o);`,
-	`for (var i = 0; i < 3; i++) { if (i == 1) continue; if (i == 2) break; }`,
-	`for (let j = 0; j < 2; j++) { f(() => j) } for (const v of a) { x += v } for (var k in o) { x += k }`,
-	`L: for (;;) { M: while (true) { do { break L } while (0) } }`,
-	`switch (x) { case 1: x = 2; case 2: { break } default: x = 3 }`,
-	`try { throw new Error("e") } catch ({ message }) { x = message } finally { y = 1 }`,
-	`try { null.p } catch { x = 1 }`,
-	`with (o) { p = 2; var wv = p }`,
-	`var t = ` + "`a${x}b${`n${y}`}c`" + `; var tt = f` + "`q${x}`" + `;`,
-	`var r1 = /a(b)?[c-d]+\d{1,2}(?<n>x)\k<n>/giu.exec("ab"); var r2 = "a/b".replace(/\//g, "$&");`,
-	`x = o?.p?.[0]?.(1) ?? (x ||= 1, y &&= 2, u ??= 3);`,
-	`x = a ? b : c ? d : e; y = (1, 2, 3); x = typeof q === "undefined" ? void 0 : delete o.p;`,
-	`x = 1 + 2 * 3 ** 2 / 4 % 5 - -6 << 1 >> 2 >>> 3 & 4 | 5 ^ ~6; y = x < 1 || x >= 2 && x != 3 || x !== 4;`,
-	`x = "p" in o && o instanceof F; x++; --y; o.p += 1; a[0] **= 2; o["p"]--;`,
-	`var oo = { a: 1, "b": 2, 3: 3, [x]: 4, f() { return super.toString() }, get g() { return 1 }, set g(v) { }, *gen() { }, async am() { }, async *ag() { }, ...o, x };`,
-	`var aa = [1, , 2, ...a, , ]; f(...a, 1, ...[2]); new F(...a); new F; new new.target;`,
-	`function nt() { return new.target } (function () { "use strict"; return this })();`,
-	`eval("var ev = 1; let el = 2; function ef(){}"); (0, eval)("var ev2 = 1");`,
-	`(function () { arguments[0] = 1; return arguments.length + arguments.callee.length })(1, 2)`,
-	`var sy = Symbol.iterator; var it = { [sy]() { return { next() { return { done: true } }, return() { return {} } } } }; for (var z of it) break; var [d1] = it;`,
-	`label: { x = 1; break label; } if (x) ; else { } ;;; debugger;`,
-	`x = 0x1f + 0b11 + 0o17 + 1e3 + .5 + 5. + 1_000 + 0.1e-2 + 10n ** 2n;`,
-	`x = 'a\'b\n\x41A\u{1F600}\0' + "\"" + '\
-';`,
-	`// comment
-/* multi
-line */ x = 1 /* c */ + 2; <!-- html comment
---> also`,
-	`if (x) function fi() { } else function fe() { }`,
-	`var fn = function named() { return named }; var cl = class Named { static n = Named };`,
-	`async function* ag() { for await (const v of [1]) { yield v } } ag().next()`,
-	`new Promise((res, rej) => res(1)).then(v => { throw v }).catch(e => e).finally(() => 1);`,
-	`var px = new Proxy({}, { get(t, k, r) { return k } }); px.a + Reflect.ownKeys(px).length;`,
-	`o.g = 1; Object.defineProperty(o, "z", { get() { return 1 }, configurable: true }); delete o.z;`,
-	`var get = 1, set = 2, of = 3, async = 4, let = 5, static = 6, yield = 7, await = 8; get + set + of + async`,
-	`x = a.map(function (v, i) { return v * i }).filter(v => v).reduce((p, c) => p + c, 0);`,
-	`function outer() { var cap = 1; function inner() { return cap++ } return inner } outer()()`,
-	`function dflt({ a = 1, b: [c2 = 2] = [] } = {}, [d = 3] = []) { return a + c2 + d } dflt()`,
-	`var tf = true, ff2 = false, nn = null, uu = undefined, th = this, inf = Infinity, nan = NaN;`,
-	`do x++; while (x < 3) x--`,
-	`for (var i2 = 0, j2 = 1; i2 < j2; i2++, j2--) ; for (; ;) break; for (x in o) ; for (x of a) ; for ([x, y] of [[1, 2]]) ; for ({ p: x } of [o]) ;`,
-	`"use strict"; var se = 1; function sf(a, b) { "use strict"; return a }`,
-	`x = a?.[0]; x = o?.f?.(); x = o?.["f"]?.(); x = (o?.f)(); delete o?.p;`,
-	`x = class { static { x = 1 } static async *[Symbol.iterator]() { } 'q'() { } 1() { } static get [x]() { return 1 } };`,
-	`import("m"); x = import.meta;`,
-	`x = y => z => y + z; x = async y => await y; x = async (y, z) => { }; x = (y, z = 1, ...r) => r;`,
-	`x = { __proto__: o, __proto__2: 1 }; x = { get: 1, set: 2, async: 3, static: 4, get get() { return 1 }, set set(v) { } };`,
-}
+// seed catalogue for token edits: every construct at least once (shared with C16)
+var seeds = jsseeds.Programs
